@@ -91,7 +91,7 @@ func runCheck(args []string) int {
 	if len(specs) == 0 {
 		fatal("no harness registered for %s", prop)
 	}
-	evPath := filepath.Join(verifDir, "evidence", prop+".json")
+	evPath := filepath.Join(envOr("GOSYM_EVIDENCE_DIR", filepath.Join(verifDir, "evidence")), prop+".json")
 	if only == "" {
 		os.Remove(evPath)
 	}
